@@ -789,9 +789,9 @@ func c02OffNoEffects(c *Ctx, m *Module) {
 			continue
 		}
 		nfs++
-		k := fname(e.Fn) + "/" + e.Name
+		k := fnameTop(e.Fn) + "/" + e.Name
 		_, tabled := tab[k]
-		r.Check("C02.off-no-effects", "uploader.Run reaches "+k, m.Pos(e.Call.Pos()), gatedFns[fname(e.Fn)] || tabled,
+		r.Check("C02.off-no-effects", "uploader.Run reaches "+k, m.Pos(e.Call.Pos()), gatedFns[fnameTop(e.Fn)] || tabled,
 			"file-system effects of the uploader must sit in functions reached only behind the mode gates (or in the one-line exception table); chain: "+chainString(chains[e.Fn]))
 	}
 	r.Analysed["uploader_fs_effect_sites"] = nfs
